@@ -63,8 +63,9 @@ Proof. exact nd_all_sites_classified. Qed.
 Print Assumptions C06_all_sites_classified.
 
 (* ... and none of the listed sites is a confirmed divergence: every site is independent, justified harmless, or a
-   documented limitation (wall-clock contract timeout, error choice of concurrent reads, event order of
-   createMagicBlock) that no execution of the engine has shown to diverge *)
+   documented limitation (wall-clock contract timeout, event order of createMagicBlock: not driven; error choice of
+   the fan-in reads: driven by the fan-in scenarios, divergence for requests that name providers of different wrong
+   types is reported under C06:fan-in-error-depends-on-schedule:*:mixed-provider-types) *)
 Theorem C06_no_confirmed_dependent_site :
   forall x, In x gen_nd_sites ->
     nd_class_independent (nd_site_class x) = true \/
